@@ -21,7 +21,8 @@ def inOf? (j : Json) : Option In := do
   some { spawning := ← b "spawning", spawnReq := ← b "spawnReq", changing := ← b "changing",
          changeReq := ← b "changeReq", isBlocked := ← b "isBlocked", isOngoing := ← b "isOngoing",
          deletedEvent := ← b "deletedEvent", consistent := ← b "consistent",
-         spawnDelays := ← b "spawnDelays", changeDelays := ← b "changeDelays" }
+         spawnDelays := ← b "spawnDelays", changeDelays := ← b "changeDelays",
+         deadline := ← b "deadline", paused := ← b "paused", carried := ← b "carried" }
 
 /-! ### Trace acceptance: replay the labels of a whole-operator run through `lstep` -/
 
@@ -29,7 +30,7 @@ def envOf? (j : Json) : Option Env := do
   let b (k : String) : Option Bool := do jBool? (← jField? j k)
   some { consistent := ← b "consistent", merge := ← b "merge", otherChanging := ← b "otherChanging",
          otherDelays := ← b "otherDelays", mergeChanges := ← b "mergeChanges", userFns := ← b "userFns",
-         delReset := ← b "delReset" }
+         carried := ← b "carried", waiting := ← b "waiting", delReset := ← b "delReset" }
 
 def snapOf? (j : Json) : Option Snap := do
   some { rv := ← jNat? (← jField? j "rv"), marked := ← jBool? (← jField? j "marked"),
@@ -141,7 +142,7 @@ def handle : DrvHandler := fun op args =>
                          rv := 0, matchDel := ← jBool? (← jField? init "matchDel"), matchDmn := ← jBool? (← jField? init "matchDmn"),
                          delDone := false, dmnLive := false, dmnForever := false, mem := [], pending := none }
       let s : LState := { base := b, queue := [snap b], sleeping := false, cycDelays := false, cycMerge := false,
-                          cycChanges := false, cycViewRv := 0, cycUserFns := false }
+                          cycChanges := false, cycViewRv := 0 }
       some (ok (replay own s 0 (← jArr? items)))
   -- `requires_finalizer` of a registry: [excluded ids, [[id, requires_finalizer, (pre)matches], …] in registration order]
   | "C06.requires", [ex, regs] => do
